@@ -80,7 +80,7 @@ type ifStmt struct {
 
 func (p *ifStmt) Then(cb *CodeBuilder, src ...ast.Node) {
 	cond := cb.stk.Pop()
-	if !types.AssignableTo(cond.Type, types.Typ[types.Bool]) {
+	if cond.Type == nil || !types.AssignableTo(cond.Type, types.Typ[types.Bool]) {
 		cb.panicCodeError(getPos(src), getEnd(src), "non-boolean condition in if statement")
 	}
 	p.cond = cond.Val
@@ -426,7 +426,7 @@ type forStmt struct {
 func (p *forStmt) Then(cb *CodeBuilder, src ...ast.Node) {
 	cond := cb.stk.Pop()
 	if cond.Val != nil {
-		if !types.AssignableTo(cond.Type, types.Typ[types.Bool]) {
+		if cond.Type == nil || !types.AssignableTo(cond.Type, types.Typ[types.Bool]) {
 			panic("TODO: for statement condition is not a boolean expr")
 		}
 		p.cond = cond.Val
